@@ -264,9 +264,10 @@ impl Wp {
         let te_nw = self.error[pos_nw] as i64;
         let te_ne = self.error[pos_ne] as i64;
         let sum_wn = te_n + te_w;
-        let mut p = te_n;
-        if te_w.abs() > p.abs() {
-            p = te_w;
+        // the one with the largest magnitude, ties resolved in the order W, N, NW, NE
+        let mut p = te_w;
+        if te_n.abs() > p.abs() {
+            p = te_n;
         }
         if te_nw.abs() > p.abs() {
             p = te_nw;
@@ -775,6 +776,107 @@ impl ModularHeader {
         w.u32([D::Val(0), D::Val(1), D::BitsOffset(4, 2), D::BitsOffset(8, 18)], self.transforms.len() as u32);
         for t in &self.transforms {
             t.write(w);
+        }
+    }
+}
+
+// ------------------------------------------------------------------------------------------
+// Reference inverse transforms (oracle side)
+
+/// Inverse RCT as the format defines it (H.6.3).
+pub fn inverse_rct(ch: &mut [Channel], begin_c: usize, rct_type: u32) {
+    let perm = rct_type / 7;
+    let kind = rct_type % 7;
+    let n = ch[begin_c].data.len();
+    let mut out = [vec![0i32; n], vec![0i32; n], vec![0i32; n]];
+    for i in 0..n {
+        let a = ch[begin_c].data[i];
+        let mut b = ch[begin_c + 1].data[i];
+        let mut c = ch[begin_c + 2].data[i];
+        let (d, e, f);
+        if kind == 6 {
+            let tmp = a.wrapping_sub(c >> 1);
+            e = c.wrapping_add(tmp);
+            f = tmp.wrapping_sub(b >> 1);
+            d = f.wrapping_add(b);
+        } else {
+            if kind & 1 != 0 {
+                c = c.wrapping_add(a);
+            }
+            if kind >> 1 == 1 {
+                b = b.wrapping_add(a);
+            }
+            if kind >> 1 == 2 {
+                b = b.wrapping_add(((a as i64 + c as i64) >> 1) as i32);
+            }
+            d = a;
+            e = b;
+            f = c;
+        }
+        out[(perm % 3) as usize][i] = d;
+        out[((perm + 1 + perm / 3) % 3) as usize][i] = e;
+        out[((perm + 2 - perm / 3) % 3) as usize][i] = f;
+    }
+    for k in 0..3 {
+        ch[begin_c + k].data = std::mem::take(&mut out[k]);
+    }
+}
+
+fn unsqueeze_h(avg: &Channel, res: &Channel) -> Channel {
+    let w = avg.w + res.w;
+    let mut out = Channel { w, h: avg.h, hshift: avg.hshift - 1, vshift: avg.vshift, data: vec![0; w * avg.h] };
+    for y in 0..avg.h {
+        for x in 0..res.w {
+            let av = avg.at(x, y) as i64;
+            let left = if x > 0 { out.data[y * w + 2 * x - 1] as i64 } else { av };
+            let next = if x + 1 < avg.w { avg.at(x + 1, y) as i64 } else { av };
+            let diff = res.at(x, y) as i64 + smooth_tendency(left, av, next);
+            let a = av + diff / 2;
+            let b = a - diff;
+            out.data[y * w + 2 * x] = a as i32;
+            out.data[y * w + 2 * x + 1] = b as i32;
+        }
+        if avg.w > res.w {
+            out.data[y * w + 2 * res.w] = avg.at(res.w, y);
+        }
+    }
+    out
+}
+
+fn unsqueeze_v(avg: &Channel, res: &Channel) -> Channel {
+    let h = avg.h + res.h;
+    let w = avg.w;
+    let mut out = Channel { w, h, hshift: avg.hshift, vshift: avg.vshift - 1, data: vec![0; w * h] };
+    for y in 0..res.h {
+        for x in 0..w {
+            let av = avg.at(x, y) as i64;
+            let top = if y > 0 { out.data[(2 * y - 1) * w + x] as i64 } else { av };
+            let next = if y + 1 < avg.h { avg.at(x, y + 1) as i64 } else { av };
+            let diff = res.at(x, y) as i64 + smooth_tendency(top, av, next);
+            let a = av + diff / 2;
+            let b = a - diff;
+            out.data[2 * y * w + x] = a as i32;
+            out.data[(2 * y + 1) * w + x] = b as i32;
+        }
+    }
+    if avg.h > res.h {
+        for x in 0..w {
+            out.data[2 * res.h * w + x] = avg.at(x, res.h);
+        }
+    }
+    out
+}
+
+pub fn inverse_squeeze(ch: &mut Vec<Channel>, params: &[SqueezeParam]) {
+    for p in params.iter().rev() {
+        let begin = p.begin_c as usize;
+        let end = begin + p.num_c as usize - 1;
+        let offset = if p.in_place { end + 1 } else { ch.len() - p.num_c as usize };
+        for c in begin..=end {
+            let res = ch[offset].clone();
+            let merged = if p.horizontal { unsqueeze_h(&ch[c], &res) } else { unsqueeze_v(&ch[c], &res) };
+            ch[c] = merged;
+            ch.remove(offset);
         }
     }
 }
